@@ -419,7 +419,7 @@ SEED_EXPECT.update({
     'R2-C01a': ['C01'], 'R2-C01b': ['C01', 'C06', 'C11'], 'R2-C02a': ['C01', 'C06', 'C10', 'C11', 'C19'], 'R2-C03a': ['C03', 'C13', 'C20'],
     'R2-C03b': ['C13', 'C20'], 'R2-C04a': ['C13', 'C20'], 'R2-C04b': ['C05', 'C13', 'C20'], 'R2-C05a': ['C05', 'C13', 'C20'],
     'R2-C05b': ['C04', 'C05'], 'R2-C06b': ['C01', 'C06', 'C10', 'C11'], 'R2-C08a': ['C05', 'C13'], 'R2-C09a': ['C04', 'C05', 'C16'],
-    'R2-C10a': ['C06', 'C10', 'C11'], 'R2-C10b': ['C10'], 'R2-C11a': ['C06', 'C10', 'C11'], 'R2-C11b': ['C01', 'C06', 'C11', 'C16', 'C19'],
+    'R2-C10a': ['C06', 'C10', 'C11'], 'R2-C10b': ['C10'], 'R2-C11a': ['C06', 'C10', 'C11'], 'R2-C11b': ['C01', 'C06', 'C11', 'C16'],
     'R2-C12b': ['C10'], 'R2-C13a': ['C05', 'C13', 'C20'], 'R2-C13b': ['C13', 'C20'], 'R2-C14a': ['C04', 'C10', 'C13', 'C20'],
     'R2-C14b': ['C01', 'C06', 'C11', 'C16'], 'R2-C15a': ['C01', 'C06', 'C11', 'C15', 'C18'], 'R2-C15b': ['C10', 'C13', 'C20'], 'R2-C16a': ['C04', 'C05'],
     'R2-C16b': ['C01', 'C06', 'C11'], 'R2-C17a': ['C01', 'C16', 'C17', 'C18'], 'R2-C17b': ['C17'], 'R2-C18a': ['C18'],
